@@ -280,6 +280,25 @@ class Program(object):
                     fi.nested[node.name] = sub
                     self.functions[sub.qualname] = sub
                     self._index_nested(mod, sub)
+            elif isinstance(node, ast.Lambda) and self._enclosing_def(node) is fi.node:
+                # a lambda is the function `def <lambda>(args): return <body>` nested here: calls made in its body happen when
+                # whoever receives it calls it (the call graph follows it like a closure handed on by name)
+                fd = ast.FunctionDef(name="<lambda@%d:%d>" % (node.lineno, node.col_offset), args=node.args, body=[ast.Return(value=node.body)],
+                                     decorator_list=[], returns=None, type_comment=None)
+                fd.type_params = []
+                ast.copy_location(fd, node)
+                ast.copy_location(fd.body[0], node.body)
+                fd.end_lineno = fd.body[0].end_lineno = getattr(node, "end_lineno", node.lineno)
+                fd.end_col_offset = fd.body[0].end_col_offset = getattr(node, "end_col_offset", 0)
+                fd._parent = getattr(node, "_parent", None)
+                fd.body[0]._parent = fd
+                fd.is_lambda = True
+                sub = FuncInfo(mod, fd, parent=fi)
+                sub.is_lambda = True
+                fi.nested[fd.name] = sub
+                node._fi = sub
+                self.functions[sub.qualname] = sub
+                sub.nested, sub.local_imports = {}, {}
             elif isinstance(node, ast.ImportFrom):
                 tmp = Module.__new__(Module)
                 tmp.name, tmp.is_pkg, tmp.imports = mod.name, mod.is_pkg, {}
